@@ -139,7 +139,83 @@ def c12_bracket(k0: int, k1: int, k2: int, k3: int, k4: int, n1: int, n2: int) -
         return f"ill-bracketed program accepted ({wrej}; {len(traces)} subcircuits) :: {sx}"
     if len(traces) != want:
         return f"{len(traces)} subcircuits, expected {want} :: {sx}"
+    # what each subcircuit contains: the gates between its (last) prepare_all and its measure_all, loops
+    # inside the section unrolled.  Compared only when no section straddles a loop boundary.
+    secs = concretely(_simple_sections, flat)
+    if secs is not None:
+        try:
+            ser = [[g.name for g in TraceSerializer(t).visit(expanded) if g.name not in ("prepare_all", "measure_all")] for t in traces]
+        except FuelExhausted:
+            return f"serialising a trace does not terminate :: {sx}"
+        except Exception as ex:
+            return f"non-JaqalError escaped from TraceSerializer: {exc(ex)} :: {sx}"
+        want_ser = [[g[1] for g in s_] for s_ in secs]
+        if ser != want_ser:
+            return f"subcircuit contents {ser}, expected {want_ser} :: {sx}"
     return ""
+
+
+def _has_pm(t):
+    if t[0] == "g":
+        return t[1] in ("prepare_all", "measure_all")
+    return any(_has_pm(c) for c in (t[2] if t[0] in ("loop", "sub") else t[1]))
+
+
+def _simple_sections(tree):
+    """_sections(tree), or None when some loop is entered while a section is open and contains a
+    prepare_all/measure_all (a section straddling a loop boundary)."""
+    out = []
+    cur = [None]
+    simple = [True]
+
+    def walk(t):
+        k = t[0]
+        if k == "g":
+            if t[1] == "prepare_all":
+                cur[0] = []
+            elif t[1] == "measure_all":
+                out.append(cur[0])
+                cur[0] = None
+            elif cur[0] is not None:
+                cur[0].append(t)
+            return
+        if k == "loop":
+            if cur[0] is not None:
+                if _has_pm(t):
+                    simple[0] = False
+                    return
+                reps = t[1]
+            else:
+                reps = 1
+                # a loop that opens a section and leaves it open straddles as well
+                if _opens_unclosed(t):
+                    simple[0] = False
+            for _ in range(max(0, reps)):
+                for c in t[2]:
+                    walk(c)
+            return
+        for c in (t[2] if k == "sub" else t[1]):
+            walk(c)
+
+    walk(tree)
+    return out if simple[0] else None
+
+
+def _opens_unclosed(t):
+    state = [False]
+
+    def walk(n):
+        if n[0] == "g":
+            if n[1] == "prepare_all":
+                state[0] = True
+            elif n[1] == "measure_all":
+                state[0] = False
+            return
+        for c in (n[2] if n[0] in ("loop", "sub") else n[1]):
+            walk(c)
+
+    walk(t)
+    return state[0]
 
 
 # ---------------------------------------------------------------------------------------
